@@ -195,7 +195,7 @@ def emit(top, tag):
       rhs = e_ref(b) if b[0] == "ref" else (str(b[1]) if b[0] == "i" else e_expr(b))
       out.append(f"    connect( {e_ref(a)}, {rhs} )")
     for bname, kind, stmts in cmp.get("blocks", []):
-      out.append(f"    @{'update_ff' if kind == 'ff' else 'update'}")
+      out.append(f"    @{'update_ff' if kind == 'ff' else ('update_once' if kind == 'once' else 'update')}")
       out.append(f"    def {bname}():")
       e_stmts(stmts, kind, 6, out)
     cons = cmp.get("constraints", [])
